@@ -204,7 +204,7 @@ GROUPS += [
     },
     {
         "id": "C03.recv_gates", "property": ["C03", "C01"], "crate": "core",
-        "harnesses": ["c03_recv_response_"], "jobs": 2, "timeout_s": 1200, "mem_gb": 24,
+        "harnesses": ["c03_recv_response_"], "jobs": 1, "timeout_s": 1200, "mem_gb": 36,  # peak memory varies run to run (13-24+ GB)
         "functions": STRAT_FNS + STATE_FNS, "stubs": [NET_STUB],
         "bounds": "the composed receive step recv_response (validate, from, check_trace_id, in_round as wired by the real "
                   "code): an echo reply naming the sequence just beyond the 512-slot window; an echo reply for an AWAITED probe "
